@@ -245,6 +245,10 @@ func runC04(w *World, tier string) (bool, interface{}) {
 		return c.AllInState(roundA, StIdle, members) && c.AllInState(roundB, StIdle, membersB)
 	}, 900*n)
 	if !(c.AllInState(roundA, StIdle, members) && c.AllInState(roundB, StIdle, membersB)) {
+		// whose deal is whose does not depend on the rounds completing
+		if checkDealAddressees(w) > 0 && w.Failed() {
+			return true, nil
+		}
 		return false, fmt.Sprintf("rounds did not complete: A %v B %v", states(c, roundA), states(c, roundB))
 	}
 	// a signed batch in each round, and one induced error result
@@ -317,29 +321,7 @@ func runC04(w *World, tier string) (bool, interface{}) {
 	outputs := make([][]byte, noutputs)
 	blobs := make([][]byte, nblobs)
 	// ---- (2) a deal can be opened by its addressee only ------------------------------------
-	deals := 0
-	for _, m := range w.Board.Msgs {
-		if m.Event != "event_dkg_deal_confirm_received" || m.RecipientAddr == "" {
-			continue
-		}
-		var req requests.DKGProposalDealConfirmationRequest
-		if json.Unmarshal(m.Data, &req) != nil || string(req.Deal) == "self-confirm" {
-			continue
-		}
-		for j, a := range w.Airs {
-			if w.Nodes[j].Name == m.RecipientAddr {
-				if _, err := a.M.SimDecrypt(req.Deal); err != nil {
-					w.Fail("C04", "deal-not-decryptable-by-addressee", fmt.Sprintf("deal for %s cannot be opened with its own key: %v", m.RecipientAddr, err))
-				}
-				continue
-			}
-			deals++
-			if pt, err := a.M.SimDecrypt(req.Deal); err == nil {
-				w.Fail("C04", "deal-decryptable-by-non-addressee", fmt.Sprintf("the deal sent by %s to %s opens with the key of %s (%d bytes of plaintext)", m.SenderAddr, m.RecipientAddr, w.Nodes[j].Name, len(pt)))
-			}
-		}
-	}
-	w.Stats.ProbeN("deal-x-foreign-key-pairs", deals)
+	deals := checkDealAddressees(w)
 	// ---- (4) cross-round: nothing shared ---------------------------------------------------
 	commitsOf := func(round string) map[string][]string {
 		out := map[string][]string{}
@@ -467,6 +449,38 @@ func runC04(w *World, tier string) (bool, interface{}) {
 	}
 	_ = os.RemoveAll(cp)
 	return true, map[string]interface{}{"n": n, "tA": t, "tB": tB, "round_b_list": listKind, "interleaved": interleaved, "outputs_scanned": len(outputs), "blobs": len(blobs), "secrets": nsecrets, "deal_foreign_key_pairs": deals}
+}
+
+// checkDealAddressees: every sealed deal on the board opens with the key of the
+// machine it is addressed to and with no other machine's key.
+func checkDealAddressees(w *World) int {
+	deals := 0
+	for _, m := range w.Board.Msgs {
+		if m.Event != "event_dkg_deal_confirm_received" || m.RecipientAddr == "" {
+			continue
+		}
+		var req requests.DKGProposalDealConfirmationRequest
+		if json.Unmarshal(m.Data, &req) != nil || string(req.Deal) == "self-confirm" {
+			continue
+		}
+		for j, a := range w.Airs {
+			if a == nil || a.M == nil || j >= len(w.Nodes) {
+				continue
+			}
+			if w.Nodes[j].Name == m.RecipientAddr {
+				if _, err := a.M.SimDecrypt(req.Deal); err != nil {
+					w.Fail("C04", "deal-not-decryptable-by-addressee", fmt.Sprintf("deal for %q cannot be opened with its own key: %v", m.RecipientAddr, err))
+				}
+				continue
+			}
+			deals++
+			if pt, err := a.M.SimDecrypt(req.Deal); err == nil {
+				w.Fail("C04", "deal-decryptable-by-non-addressee", fmt.Sprintf("the deal sent by %q to %q opens with the key of %q (%d bytes of plaintext)", m.SenderAddr, m.RecipientAddr, w.Nodes[j].Name, len(pt)))
+			}
+		}
+	}
+	w.Stats.ProbeN("deal-x-foreign-key-pairs", deals)
+	return deals
 }
 
 func init() {
